@@ -900,7 +900,7 @@ Section RSDelivery.
     2:{ apply (pout_weaken _ Nice2); [tauto|exact H]. }
     destruct (a_close_obj p) eqn:Hcl; [|apply (pout_weaken _ Nice2); [tauto|exact H]].
     cbn [POut] in H. destruct H as [(S1 & M1 & L1)|[(H1 & H2)|(H1 & H2 & H3)]].
-    - pose proof S1 as (St1 & Dy1 & _). rewrite (st_state _ St1).
+    - pose proof S1 as (St1 & Dy1 & _). rewrite (st_state _ St1), (st_writer _ St1).
       destruct (error_res w o1 c1 _ true (st_writer _ St1)) as (o2 & Hcp & Hst). rewrite Hcp. cbn [POut].
       right; right. split; [right; exact Hst|]. split; [|intros [_ G']; exact (G' Hcl o1 c1 S1 M1 L1)].
       eapply shape_err; [apply (dy_log _ _ Dy1)|reflexivity|right; reflexivity].
